@@ -9,6 +9,9 @@ CONSTANTS
   SaveAsSet = {"none", "file", "dir"}
   Modes = {"deleted", "truncated", "nonjson", "unknown", "shape", "datagone"}
   MayFail = TRUE
+  OutcomeSet = {"content", "cmd", "timeout", "crash", "skip"}
+  BackedSet = {FALSE, TRUE}
+  RecordMode = "component"
   PoolSet = {FALSE, TRUE}
   AssembleMode = "index"
   MaxFaults = 4
